@@ -119,6 +119,12 @@ func RunWorker(spec WorkerSpec) *WorkerResult {
 				w = p.Gen(NewRng(seed), spec.Tier)
 				w.Seed = seed
 			}
+			if raceBuild {
+				// the race detector halts the process on a report: leave the
+				// world that is running where the driver can find it
+				os.WriteFile(spec.Out+".cur.tmp", w.JSON(), 0o644)
+				os.Rename(spec.Out+".cur.tmp", spec.Out+".cur")
+			}
 			curWorld.Store(w.Clone())
 			curStart.Store(time.Now().UnixMilli())
 			defer curStart.Store(0)
